@@ -187,6 +187,41 @@ keyset_new(IMB_MGR *m, int keyid)
                 DIE("key preparation failed: errno %d", imb_get_errno(m));
         return k;
 }
+static void
+pat(void *p, size_t n, uint32_t magic24, uint32_t *idx)
+{
+        uint8_t *b = p;
+        for (size_t i = 0; i + 4 <= n; i += 4) {
+                b[i] = (uint8_t) (*idx)++;
+                b[i + 1] = (uint8_t) (magic24 >> 16);
+                b[i + 2] = (uint8_t) (magic24 >> 8);
+                b[i + 3] = (uint8_t) magic24;
+        }
+}
+void
+keyset_pattern(keyset_t *k, uint32_t magic)
+{
+        uint32_t idx = 0;
+        pat(k->raw, sizeof k->raw, magic, &idx);
+        pat(k->aes_e, sizeof k->aes_e, magic, &idx);
+        pat(k->aes_d, sizeof k->aes_d, magic, &idx);
+        pat(k->des, sizeof k->des, magic, &idx);
+        pat(&k->gcm, sizeof k->gcm, magic, &idx);
+        pat(&k->ghash, sizeof k->ghash, magic, &idx);
+        pat(&k->sm4gcm, sizeof k->sm4gcm, magic, &idx);
+        pat(k->sk1, sizeof k->sk1, magic, &idx);
+        pat(k->sk2, sizeof k->sk2, magic, &idx);
+        pat(k->xk1, sizeof k->xk1, magic, &idx);
+        pat(k->xk2, sizeof k->xk2, magic, &idx);
+        pat(k->xk3, sizeof k->xk3, magic, &idx);
+        pat(k->ipad, sizeof k->ipad, magic, &idx);
+        pat(k->opad, sizeof k->opad, magic, &idx);
+        pat(k->sm4_e, sizeof k->sm4_e, magic, &idx);
+        pat(k->sm4_d, sizeof k->sm4_d, magic, &idx);
+        pat(k->snow3g, sizeof(snow3g_key_schedule_t), magic, &idx);
+        pat(k->kas8, sizeof(kasumi_key_sched_t), magic, &idx);
+        pat(k->kas9, sizeof(kasumi_key_sched_t), magic, &idx);
+}
 void
 keyset_free(keyset_t *k)
 {
